@@ -1,4 +1,5 @@
 import OpcuaVerif.Model.C16
+import OpcuaVerif.Generated.CryptoPolicy
 
 /-!
 C16 — Encrypted user passwords round-trip, bind to the nonce, and never crash.
@@ -343,6 +344,117 @@ theorem wrong_nonce_rejected_unless_tail (r : Rsa) (hl : RsaLaws r) (pad : Paddi
     split at hd
     · split at hd <;> exact absurd hd (by simp)
     · exact absurd hd (by simp)
+
+/-! ### the token layer -/
+
+/-- **The algorithm URI written into the token names the padding the password was encrypted
+with** — for every policy (after the two `fix:` commits on the constants). -/
+theorem uri_names_padding (p : Policy) (pad : Padding) (u : AlgUri)
+    (hp : p.encPadding? = some pad) (hu : p.encUriW true = some u) : u.padding = pad := by
+  cases p <;> simp [Policy.encPadding?, Policy.encUriW] at hp hu <;> subst hp hu <;> rfl
+
+/-- no policy encrypts passwords with the signature padding -/
+theorem encPadding_ne_pss (p : Policy) (pad : Padding) (hp : p.encPadding? = some pad) : pad ≠ .pss := by
+  cases p <;> simp [Policy.encPadding?] at hp <;> subst hp <;> decide
+
+/-- a token can be made for every channel / user-token policy combination except an `Unknown`
+channel policy with an empty token policy (the source panics there by design) -/
+theorem makeToken_total (r : Rsa) (hl : RsaLaws r) (rnd : Nat) (chan : Policy) (tp : Option Policy)
+    (nonce pw : Bytes) (hne : effectivePolicy chan tp ≠ .unknown) :
+    ∃ out, makeToken r rnd chan tp nonce pw = .ok out := by
+  unfold makeToken makeTokenW
+  cases he : effectivePolicy chan tp with
+  | none => exact ⟨_, rfl⟩
+  | unknown => exact absurd he hne
+  | basic128Rsa15 =>
+    obtain ⟨C, hC⟩ := encrypt_total r hl .pkcs1 (by decide) rnd pw nonce
+    exact ⟨(C, _), by simp [Policy.encPadding?, Policy.encUriW, hC]; rfl⟩
+  | basic256 =>
+    obtain ⟨C, hC⟩ := encrypt_total r hl .oaepSha1 (by decide) rnd pw nonce
+    exact ⟨(C, _), by simp [Policy.encPadding?, Policy.encUriW, hC]; rfl⟩
+  | basic256Sha256 =>
+    obtain ⟨C, hC⟩ := encrypt_total r hl .oaepSha1 (by decide) rnd pw nonce
+    exact ⟨(C, _), by simp [Policy.encPadding?, Policy.encUriW, hC]; rfl⟩
+  | aes128Sha256RsaOaep =>
+    obtain ⟨C, hC⟩ := encrypt_total r hl .oaepSha1 (by decide) rnd pw nonce
+    exact ⟨(C, _), by simp [Policy.encPadding?, Policy.encUriW, hC]; rfl⟩
+  | aes256Sha256RsaPss =>
+    obtain ⟨C, hC⟩ := encrypt_total r hl .oaepSha256 (by decide) rnd pw nonce
+    exact ⟨(C, _), by simp [Policy.encPadding?, Policy.encUriW, hC]; rfl⟩
+
+/-- **Token round trip**: what `make_user_name_identity_token` produces — plain text or
+encrypted, for any channel policy and user token policy — is read back by
+`decrypt_user_identity_token_password` with the same nonce as the original password. -/
+theorem token_roundtrip (r : Rsa) (hl : RsaLaws r) (rnd : Nat) (chan : Policy) (tp : Option Policy)
+    (nonce pw field : Bytes) (alg : TokAlg) (hutf : utf8Valid pw = true)
+    (h32 : pw.length + nonce.length < 4294967296)
+    (h : makeToken r rnd chan tp nonce pw = .ok (field, alg)) :
+    decryptToken r (some field) alg nonce = .ok pw := by
+  unfold makeToken makeTokenW at h
+  have key : ∀ (pad : Padding) (u : AlgUri) (c : Bytes),
+      encrypt r pad rnd pw nonce = .ok c → (c, TokAlg.uri u) = (field, alg) → u.padding = pad →
+      decryptToken r (some field) alg nonce = .ok pw := by
+    intro pad u c he hm hup
+    injection hm with h1 h2
+    subst h1 h2
+    simp only [decryptToken, hup]
+    exact roundtrip r hl pad rnd pw nonce c hutf h32 he
+  cases he : effectivePolicy chan tp <;> rw [he] at h <;> dsimp only at h
+  · injection h with h
+    injection h with h1 h2
+    subst h1 h2
+    simp [decryptToken, hutf]
+  case unknown => exact absurd h (by simp)
+  all_goals (
+    simp only [Policy.encPadding?, Policy.encUriW, if_true] at h
+    split at h
+    · rename_i c hc
+      injection h with h
+      exact key _ _ c hc h rfl
+    · exact absurd h (by simp)
+    · exact absurd h (by simp))
+
+/-- PINNED SOURCE (fixed): for Aes128-Sha256-RsaOaep and Aes256-Sha256-RsaPss the algorithm URI
+constant named a different algorithm than the padding the password is encrypted with
+(`rsa-1_5` for OAEP-SHA1, `rsa-oaep` for OAEP-SHA256), so the server decrypted with the wrong
+padding and could never read the password its own client sent. -/
+theorem C16_counterexample_uri_padding_mismatch_pinned :
+    (Policy.aes128Sha256RsaOaep.encPadding? = some .oaepSha1 ∧
+      (Policy.aes128Sha256RsaOaep.encUriW false).map AlgUri.padding = some .pkcs1) ∧
+    (Policy.aes256Sha256RsaPss.encPadding? = some .oaepSha256 ∧
+      (Policy.aes256Sha256RsaPss.encUriW false).map AlgUri.padding = some .oaepSha1) := by decide
+
+/-- … and these two were the only mismatches -/
+theorem pinned_mismatch_only_there (p : Policy) (pad : Padding) (u : AlgUri)
+    (hp : p.encPadding? = some pad) (hu : p.encUriW false = some u) (hne : u.padding ≠ pad) :
+    p = .aes128Sha256RsaOaep ∨ p = .aes256Sha256RsaPss := by
+  cases p <;> simp [Policy.encPadding?, Policy.encUriW] at hp hu <;> subst hp hu <;> simp [AlgUri.padding] at hne ⊢
+
+/-! ### the model's per-policy padding / URI tables are the source's (translator T2) -/
+
+def Policy.rustName : Policy → String
+  | .none => "None" | .basic128Rsa15 => "Basic128Rsa15" | .basic256 => "Basic256"
+  | .basic256Sha256 => "Basic256Sha256" | .aes128Sha256RsaOaep => "Aes128Sha256RsaOaep"
+  | .aes256Sha256RsaPss => "Aes256Sha256RsaPss" | .unknown => "Unknown"
+
+def Padding.rustName : Padding → String
+  | .pkcs1 => "Pkcs1" | .oaepSha1 => "OaepSha1" | .oaepSha256 => "OaepSha256" | .pss => "Pkcs1Pss"
+
+def AlgUri.uri : AlgUri → String
+  | .rsa15 => "http://www.w3.org/2001/04/xmlenc#rsa-1_5"
+  | .rsaOaep => "http://www.w3.org/2001/04/xmlenc#rsa-oaep"
+  | .rsaOaepSha256 => "http://opcfoundation.org/UA/security/rsa-oaep-sha2-256"
+
+open OpcuaVerif.Generated.CryptoPolicy in
+/-- regenerated from `security_policy.rs`, `mod.rs` and `user_identity.rs` on every check: the
+padding and the algorithm URI per policy, and the server's URI → padding dispatch, are the model's -/
+theorem model_matches_source :
+    (∀ p : Policy, (p.encUriW true).map AlgUri.uri = lookup encUri p.rustName ∧
+      p.encPadding?.map Padding.rustName = lookup encPadding p.rustName) ∧
+    (∀ u : AlgUri, lookup tokenUriPadding u.uri = some u.padding.rustName) := by
+  refine ⟨fun p => ?_, fun u => ?_⟩
+  · cases p <;> decide +kernel
+  · cases u <;> decide +kernel
 
 /-! ### decrypting ANY byte string never panics -/
 
